@@ -146,7 +146,12 @@ class G:
         name, t = r.choice(fs)
         n = t.fixed + ((r.randint(0, 3) if r.random() > 0.05 else r.choice([12, 40])) if t.rest else 0)
         args = [self.tick(self.int_(d - 1 if n < 8 else 0, env)) for _ in range(n)]
-        return self.mkcall(S(name), args)
+        op = S(name)
+        if r.random() < 0.1:
+            # the operator is itself an expression, evaluated once like the operands
+            self.tickn += 1
+            op = r.choice([[S("tick"), self.tickn, S(name)], [S("if"), [S("tick"), self.tickn, True], S(name), S("car")], [[S("lambda"), [], [S("tick"), self.tickn, S(name)]]]]) if self.ticks else [S("if"), True, S(name), S("car")]
+        return self.mkcall(op, args)
 
     def mkcall(self, f, args):
         return Call(f, args)
@@ -178,6 +183,9 @@ class G:
             return name, FnT(2, False, "rec"), Proc(name, [n, acc], None, [], [body])
         k = r.randint(0, 5) if r.random() > 0.03 else r.choice([9, 16, 24])        # now and then a long parameter list
         ps = [self.fresh("p") for _ in range(k)]
+        if ps and r.random() < 0.08:
+            # a parameter named like a builtin or like a keyword of a derived form: it shadows that name inside the body only
+            ps[r.randrange(len(ps))] = r.choice(["list", "vector", "not", "max", "min", "abs", "cons", "temp", "x", "else", "when"])
         rest = self.fresh("r") if r.random() < 0.4 else None
         env2 = env + [(p, "int") for p in ps] + ([(rest, "lint")] if rest else [])
         defs = []
